@@ -211,9 +211,9 @@ PROPS["C19"] = dict(
 
 PROPS["C20"] = dict(
     title="Progress figures reported to users and peers are truthful",
-    module="Cfdp.Props.C20",
+    module="Cfdp.Props.C20s",
     namespace="Cfdp.Loop",
-    theorems=["C20_recv", "C20_recv_mono", "C20_recv_reports", "progress_sendFileSegment", "C20_send_le"],
+    theorems=["C20_recv", "C20_recv_mono", "C20_recv_reports", "progress_sendFileSegment", "C20_send_le", "C20_send_history"],
     engines=["recv", "send", "seg"],
     design="§6 C20",
     technique="Lean 4 invariant proofs over all event histories of both models (using the C09 refinement) + differential correspondence",
@@ -228,7 +228,7 @@ PROPS["C20"] = dict(
           "bridges and swallows held segments); seg engine as in C09 (the receiver's figure is the sum of Segments::merge's return values, so the proof rests on the "
           "Segments model). Non-trivial = a PDU was emitted or an indication raised / the operation changed the segment list."),
     assumptions=[],
-    unproved=["sender: 'figure = highest offset transmitted so far' as a whole-history equation (proved per file-data transmission; the history version is checked by the send engine oracle send_progress)"],
+    unproved=[],
 )
 
 PROPS["C04"] = dict(
